@@ -60,7 +60,7 @@ CHECKS = {
    '(a) under-approximates on paths through commands/placeholders inside words; branch indices for (b) from cgv/refsem.py.',
    'runtime monitoring: invariant on dumped automata + metamorphic monitor (|| vs |) on bash executions'),
  'C11': ('exploration',
-   'The complete space of 5760 cases (32 definition subsets x 3 names x 15 reference positions - top level, word tail, behind one definition, behind two definitions under four name pairs, under ||, under ..., under a within-word ||, behind one definition below [] / ... / || / inside a word, in a word that follows another external command - x 4 targets) plus plain non-command PATH/DIRECTORY definitions is compiled; the rule is observed on the automaton\'s command symbols, on the command function bodies of the emitted script and, for bash, by execution in a scratch directory.',
+   'The complete space of 6144 cases (32 definition subsets x 3 names x 16 reference positions - top level, word tail, behind one definition, behind two definitions under four name pairs, under ||, under ..., under a within-word ||, behind one definition below [] / ... / || / inside a word, in a word that follows another external command, behind three definitions - x 4 targets) plus plain non-command PATH/DIRECTORY definitions is compiled; the rule is observed on the automaton\'s command symbols, on the command function bodies of the emitted script and, for bash, by execution in a scratch directory.',
    'Built-in case for fish/zsh/pwsh judged as "one body that is none of the markers".',
    'runtime monitoring: exhaustive rule oracle over probe dumps, emitted scripts and bash executions'),
  'C12': ('exploration',
